@@ -144,6 +144,8 @@ func main() {
 		derr = driveLife(w)
 	case "clife":
 		derr = driveCLife(w)
+	case "csession":
+		derr = driveCSession(w)
 	default:
 		derr = fmt.Errorf("unknown family %q", sub)
 	}
